@@ -74,22 +74,52 @@ fn probe(name: &str) -> u64 {
     1u64 << PROBES.iter().position(|p| *p == name).expect("probe name")
 }
 
+/// Union of the extents the two runs stored to (cells outside are untouched on both).
+fn dirty_union(a: &DrawRun, b: &DrawRun) -> Option<crate::model::R> {
+    match (a.st.dirty, b.st.dirty) {
+        (None, None) => None,
+        (Some(x), None) | (None, Some(x)) => Some(x),
+        (Some(x), Some(y)) => {
+            let mut u = x;
+            u.grow(y.x0, y.y0);
+            u.grow(y.x1 - 1, y.y1 - 1);
+            Some(u)
+        }
+    }
+}
+
 fn first_diff(a: &DrawRun, b: &DrawRun) -> Option<(i32, i32, Option<u32>, Option<u32>)> {
     let rb = a.st.rb;
-    if rb.is_empty() {
-        return None;
-    }
+    let u = dirty_union(a, b)?;
     let w = rb.w();
-    for (i, (x, y)) in a.st.memory.iter().zip(b.st.memory.iter()).enumerate() {
-        if x != y {
-            return Some(((rb.x0 + i as i64 % w) as i32, (rb.y0 + i as i64 / w) as i32, *x, *y));
+    for y in u.y0..u.y1 {
+        for x in u.x0..u.x1 {
+            let i = ((y - rb.y0) * w + (x - rb.x0)) as usize;
+            if a.st.memory[i] != b.st.memory[i] {
+                return Some((x as i32, y as i32, a.st.memory[i], b.st.memory[i]));
+            }
         }
     }
     None
 }
 
 fn count_diff(a: &DrawRun, b: &DrawRun) -> usize {
-    a.st.memory.iter().zip(b.st.memory.iter()).filter(|(x, y)| x != y).count()
+    let rb = a.st.rb;
+    let u = match dirty_union(a, b) {
+        Some(u) => u,
+        None => return 0,
+    };
+    let w = rb.w();
+    let mut n = 0;
+    for y in u.y0..u.y1 {
+        for x in u.x0..u.x1 {
+            let i = ((y - rb.y0) * w + (x - rb.x0)) as usize;
+            if a.st.memory[i] != b.st.memory[i] {
+                n += 1;
+            }
+        }
+    }
+    n
 }
 
 impl Property for C01 {
@@ -132,15 +162,23 @@ impl Property for C01 {
         vec![
             "SimDisplay models conforming drivers; native fills have their documented meaning",
             "only the pixel map left on the device is compared (a renderer may cull against the target box on one path and not on another)",
-            "coordinates within +-64, sizes <= 64, stroke width <= 66; release arithmetic, default features",
+            "coordinates within +-64, sizes <= 64, stroke width <= 66 in most runs; 1 run in 256 uses coordinates within +-300, sizes <= 300 and stroke widths <= 140 on a 1000x1000 device; release arithmetic, default features",
             "a drawable that panics identically on every path is skipped (totality is C08, not claimed)",
         ]
     }
 
     fn gen(&self, src: &mut Src) -> Scenario {
         let dev_kind = CHAIN_KINDS[src.draw(3) as usize];
+        // 1 run in 256: display-scale sizes and coordinates (up to 300, stroke widths up to 140)
+        let huge = src.draw(256) == 255;
         let large = src.draw(5) < 3;
-        let bbox = if large { [-100, -100, 240, 240] } else { gen_small_box(src) };
+        let bbox = if huge {
+            [-330, -330, 1000, 1000]
+        } else if large {
+            [-100, -100, 240, 240]
+        } else {
+            gen_small_box(src)
+        };
         let caps_b = 1 + src.draw(7) as u8;
         let disc_b = src.draw(4) as u8;
         let dev = DevCfg { bbox, caps: 0, disc: 0 };
@@ -152,6 +190,10 @@ impl Property for C01 {
         let sm = crate::model::StackModel::new(dev.r(), dev_kind, &stack);
         let top_kind = sm.top_kind();
         let mut knobs = gen_knobs(src, top_kind.mask(), false);
+        if huge {
+            knobs.scale = 300;
+            knobs.max_width = 140;
+        }
         knobs.aim_at(&sm.top_box());
         let drawable = gen_drawable(src, &knobs, top_kind.bits());
         Scenario {
